@@ -47,6 +47,7 @@ CORPUS = [
     ("(Duration/3 s, (Red)), (Blue, (Duration/3 s, (Red)))", "(Duration/3 s, (Red)), (Blue, ((Red), Duration/3 s))", "order"),
     ("(Onset, Def/Mydef, (Red)), (Blue, (Green, (Onset, Def/Mydef, (Red))))",
      "(Onset, Def/Mydef, (Red)), (Blue, (Green, (Def/Mydef, (Red), Onset)))", "order"),
+    ("(Definition/X, (Label/#, Red)), (Blue, (Label/#, Red))", "(Definition/X, (Label/#, Red)), (Blue, (Red, Label/#))", "order"),
     ("(),()", "() , ()", "spacing"),
     ("((())),((()))", "((())),((()))", "spacing"),
     ("Red,(Blue,(Green,(Red,Blue))),(((Blue,Red),Green),Blue)", "(((Red,Blue),Green),Blue),Red,(Blue,(Green,(Blue,Red)))", "order"),
@@ -54,6 +55,12 @@ CORPUS = [
 
 
 # ------------------------------------------------------------------------------ implementation side
+
+# `is_definition = group in all_definition_groups` (hed_validator.py) is a structural, order-sensitive `==`: a group
+# written exactly like a group inside a Definition is exempted from the placeholder check
+# (fix proposed: fixes/C04_definition_group_identity.diff)
+SIG_DEFGROUP = "C04-definition-group-structural-membership"
+
 
 def install_recorder():
     """Harness-side instrumentation: keep the internal error kind and positional args on every issue."""
@@ -84,11 +91,11 @@ def def_dict(schema):
     return _DD[id(schema)]
 
 
-def codes_of(text, schema):
+def codes_of(text, schema, allow_placeholders=True):
     """sorted error-severity codes, or ('RAISED', type) — the observable of the property"""
     from hed import HedString
     try:
-        issues = HedString(text, schema, def_dict(schema)).validate()
+        issues = HedString(text, schema, def_dict(schema)).validate(allow_placeholders=allow_placeholders)
     except Exception as e:   # noqa: BLE001 — any exception is an outcome here
         return ["RAISED:" + type(e).__name__]
     return sorted(i["code"] for i in issues if i["severity"] == ERROR)
@@ -290,7 +297,11 @@ def gen_top_level_group(rng, v):
     elif k == 5:
         kids = [("t", SP["Inset"], ""), ("t", SP["Def"], dname), inner]
     elif k == 6:
-        kids = [("t", SP["Definition"], "/Newdef"), inner]
+        if rng.random() < 0.6:   # a definition with a placeholder in its content
+            inner = ("g", [("t", ["Property", "Informational-property", "Label"], "/#")] + inner[1])
+            kids = [("t", SP["Definition"], rng.choice(["/Newdef/#", "/Newdef"])), inner]
+        else:
+            kids = [("t", SP["Definition"], "/Newdef"), inner]
     elif k == 7:
         kids = [("t", SP["Event-context"], ""), small(), ("t", rng.choice(v.plain), "")]
     else:
@@ -302,6 +313,13 @@ def plant_top_level_copies(rng, v, top):
     """the same group once at top level (mark A) and once nested at depth >= 2 (mark B)"""
     import copy
     g = gen_top_level_group(rng, v)
+    inner = [n for n in g[1] if n[0] == "g"]
+    if g[1][0][1] == SP["Definition"] and inner and rng.random() < 0.6:
+        # the definition stays whole at top level; a copy of its *content* group goes elsewhere
+        top.insert(rng.randrange(len(top) + 1), g)
+        g = ("g", inner[0][1] + [("t", rng.choice(POOL_SMALL), "")]) if rng.random() < 0.3 else inner[0]
+        top.insert(rng.randrange(len(top) + 1), ("g", [("t", rng.choice(POOL_SMALL), ""), ("g", copy.deepcopy(g[1]), "B")]))
+        return
     a = ("g", g[1], "A")
     w = ("g", copy.deepcopy(g[1]), "B")
     for _ in range(rng.choice([1, 1, 2])):
@@ -490,6 +508,15 @@ def check_pair(ctx, schema, base, kind, other, cache=None):
     if ca != cb:
         ctx.violation(f"codes-differ-after-{kind}-rewrite", {"base": base, "rewrite": other, "kind": kind},
                       {"base_codes": ca, "rewrite_codes": cb})
+        return
+    if "#" in base:   # second observable: validate(allow_placeholders=False), which differs only where a '#' occurs
+        na, nb = codes_of(base, schema, False), codes_of(other, schema, False)
+        if na != nb:
+            diff = set(na) ^ set(nb) or {c for c in set(na) if na.count(c) != nb.count(c)}
+            sig = SIG_DEFGROUP if diff == {"PLACEHOLDER_INVALID"} and "efinition" in base.casefold() and "order" in kind else None
+            ctx.violation(f"codes-differ-after-{kind}-rewrite-no-placeholders",
+                          {"base": base, "rewrite": other, "kind": kind, "allow_placeholders": False},
+                          {"base_codes": na, "rewrite_codes": nb}, signature=sig)
 
 
 def dup_case(ctx, schema, text, answer):
